@@ -140,6 +140,8 @@ int main (void)
       if (dl) memcpy (parr[h]->array + old * parr[h]->elem_size, d, dl);
       fputs ("-", stdout);
     }
+    /* a view grows again inside its capacity; nothing is written */
+    else if (!strcmp (op, "regrow")) { sc_array_resize (parr[h], (size_t) a[2]); fputs ("-", stdout); }
     else if (!strcmp (op, "pushc")) {
       dl = parse_bytes (tok[3], &d);
       void *p = sc_array_push_count (parr[h], (size_t) a[2]);
